@@ -89,6 +89,8 @@ LitAtoms(c) ==
   \cup (IF c = 10 THEN {Atom(<<13>>, 0, FALSE, <<10>>), Atom(<<13, 10>>, 0, FALSE, <<10>>)} ELSE {})
   \cup (IF c \in {10, 13, 9, 8, 12, 40, 41, 92} THEN {Atom(<<92, EscLetter(c)>>, 0, FALSE, <<c>>)} ELSE {})
   \cup {Atom(Oct3(c), 0, FALSE, <<c>>)}
+  \* a backslash before a character that needs none is ignored (7.3.4.2): `\d` spells d
+  \cup (IF c \notin (48..55) \cup {110, 114, 116, 98, 102, 40, 41, 92, 13, 10} THEN {Atom(<<92, c>>, 0, FALSE, <<c>>)} ELSE {})
   \cup (IF c < 64 THEN {Atom(Oct2(c), 0, TRUE, <<c>>)} ELSE {})
   \cup (IF c < 8 THEN {Atom(Oct1(c), 0, TRUE, <<c>>)} ELSE {})
   \cup (IF c = 40 THEN {Atom(<<40>>, 1, FALSE, <<c>>)} ELSE {})
